@@ -122,6 +122,7 @@ struct OpInfo {
     lo: usize, // events[lo..hi] belong to this op
     hi: usize,
     op: String,
+    arg0: String,
     snap: Snap,               // last completed flush before this op
     snap_extents: BTreeMap<String, (usize, usize)>, // name -> (start, len) at that flush
     touched: BTreeSet<String>, // names modified since that flush, including by this op
@@ -164,6 +165,11 @@ fn kind(ev: &IoEvent) -> &'static str {
         IoEvent::Sync { meta: true } => "syncmeta",
         IoEvent::Punch { .. } => "punch",
     }
+}
+
+/// did the events recorded since index `lo` contain a sync of the data file?
+fn rflush_synced(lo: usize) -> bool {
+    verif::io_tap_since(lo).iter().any(|e| matches!(e, IoEvent::Sync { meta: false }))
 }
 
 fn run_one(steps: &[Value], scale: usize, max_choices: usize, st: &mut Stats, bidx: usize, prop: &str) {
@@ -216,7 +222,7 @@ fn run_one(steps: &[Value], scale: usize, max_choices: usize, st: &mut Stats, bi
         }));
         let hi = verif::io_tap_len();
         let dev: Vec<String> = step["dev"].as_array().map(|x| x.iter().map(|y| y.as_str().unwrap().to_string()).collect()).unwrap_or_default();
-        ops.push(OpInfo { lo, hi, op: op.to_string(), snap: snap.clone(), snap_extents: snap_extents.clone(), touched: touched.clone(), at_start, dev, flush_seen,
+        ops.push(OpInfo { lo, hi, op: op.to_string(), arg0: a.first().and_then(|x| x.as_str()).unwrap_or("").to_string(), snap: snap.clone(), snap_extents: snap_extents.clone(), touched: touched.clone(), at_start, dev, flush_seen,
             snap_after: BTreeMap::new(), snap_extents_after: BTreeMap::new(), touched_after: BTreeSet::new(), flush_seen_after: false });
         match r {
             Ok(Ok(())) => {
@@ -233,6 +239,16 @@ fn run_one(steps: &[Value], scale: usize, max_choices: usize, st: &mut Stats, bi
             Err(_) => {
                 ok = false;
                 break;
+            }
+        }
+        if op == "rflush" && matches!(r, Ok(Ok(()))) && flush_seen && verif::io_tap_len() > lo {
+            // Region::flush syncs both FILES when it has something to flush: everything written so far is durable, as after a flush
+            let synced = { let n = verif::io_tap_len(); n > lo };
+            let persisted: BTreeSet<String> = step["persist"].as_array().map(|x| x.iter().map(|y| y.as_str().unwrap().to_string()).collect()).unwrap_or_default();
+            if synced && rflush_synced(lo) {
+                snap = observe(&db).into_iter().filter(|(k, _)| persisted.contains(k)).collect();
+                snap_extents = db.regions().index_to_region().iter().flatten().map(|r| { let m = r.meta(); (m.id().to_string(), (m.start(), m.len())) }).collect();
+                touched.clear();
             }
         }
         let last = ops.last_mut().unwrap();
@@ -360,13 +376,17 @@ fn run_one(steps: &[Value], scale: usize, max_choices: usize, st: &mut Stats, bi
                             }
                         }
                         // regime 2: nothing but the library's syncs wrote pages (choice "none"): old or new, never a mixture
-                        if problem.is_none() && cname == "none" && prop == "C05" {
+                        if problem.is_none() && cname == "none" && (prop == "C05" || prop == "C12") {
                             st.regime2_checked += 1;
-                            let in_flush = (info.op == "flush" || info.op == "compact") && e > info.lo && e < info.hi;
+                            let in_db_flush = (info.op == "flush" || info.op == "compact") && e > info.lo && e < info.hi;
                             for (nm, bytes) in snap.iter() {
+                                let in_flush = in_db_flush || (info.op == "rflush" && e > info.lo && e < info.hi);
+                                let _ = &info.arg0;
                                 // overwritten in place: some data write since the flush landed inside its flushed extent
                                 let Some(&(s0, l0)) = snap_ext.get(nm) else { continue };
-                                let in_place = events[..e].iter().rev().take_while(|_| true).enumerate().any(|(_, ev)| match ev {
+                                // (only writes issued after the flush whose snapshot is the reference count)
+                                let snap_at = ops[..=k].iter().filter(|o| (o.op == "flush" || o.op == "compact" || o.op == "reopen") && o.hi <= e && (o.hi < info.hi || e == info.hi)).map(|o| o.hi).max().unwrap_or(0);
+                                let in_place = events[snap_at.min(e)..e].iter().any(|ev| match ev {
                                     IoEvent::WData { off, bytes } => *off < s0 + l0 && off + bytes.len() > s0,
                                     _ => false,
                                 }) && touched.contains(nm);
@@ -376,7 +396,8 @@ fn run_one(steps: &[Value], scale: usize, max_choices: usize, st: &mut Stats, bi
                                 let got = rec.get(nm);
                                 let old_ok = got == Some(bytes);
                                 let new_ok = in_flush && got == info.at_start.get(nm);
-                                let gone_ok = in_flush && !info.at_start.contains_key(nm) && got.is_none();
+                                // (a region created and never written has no slot on disk: it is absent after any reopen, RawDb.tla `persist`)
+                                let gone_ok = in_flush && got.is_none() && info.at_start.get(nm).map(|b| b.is_empty()).unwrap_or(true);
                                 if !(old_ok || new_ok || gone_ok) {
                                     problem = Some(format!("region '{nm}' recovered neither as flushed nor as at the start of the interrupted flush (library-syncs-only regime)"));
                                 }
